@@ -668,6 +668,46 @@ Section Put.
     exists t'. repeat split; auto. now apply PInv_check.
   Qed.
 
+  (** ** removing the only key: Delete / DeleteMin / DeleteMax on a one-key trie *)
+  Lemma leaves_two : forall i l r, (2 <= length (leaves (PNode i l r)))%nat.
+  Proof.
+    intros i l r. simpl. rewrite app_length.
+    pose proof (leaves_nonempty l). pose proof (leaves_nonempty r).
+    destruct (leaves l); [contradiction|]. destruct (leaves r); [contradiction|]. simpl. lia.
+  Qed.
+
+  Lemma single_remove : forall t r rn c d (check : pnode -> bool),
+    PInvN t r rn c (PLeaf c) -> check rn = true ->
+    exists t', p_delete_dir t r d check = ROk (t', Some (n_key rn, n_val rn)) /\
+               proot t' = None /\ psize t' = 0.
+  Proof.
+    intros t r rn c d check I CK. destruct I. simpl in q_single0. subst c.
+    assert (Q0 : psize t = 1) by (rewrite q_size0; reflexivity).
+    unfold p_delete_dir. unfold hget at 1. rewrite q_rn0. cbn [rbind]. rewrite q_left0. cbn [link rbind].
+    unfold fuel_of. cbn [del_loop1]. unfold hget at 1 2. rewrite q_rn0. cbn [rbind]. rewrite Z.ltb_irrefl. cbn [rbind].
+    unfold hget at 1. rewrite q_rn0. cbn [rbind]. rewrite CK.
+    cbn [del_loop2]. rewrite Nat.eqb_refl. cbn [rbind].
+    unfold p_remove. unfold hget at 1 2. rewrite q_rn0. cbn [rbind]. rewrite !Nat.eqb_refl. cbn [rbind].
+    unfold set_left, hget. rewrite q_rn0. cbn [rbind]. rewrite Q0. cbn [Z.sub Z.eqb Z.add Z.opp Z.pos_sub].
+    eexists. split; [reflexivity|]. split; reflexivity.
+  Qed.
+
+  Lemma single_contents : forall t r rn c, PInvN t r rn c (PLeaf c) -> p_contents t = [kv_of rn].
+  Proof.
+    intros t r rn c I. unfold p_contents. rewrite (PInvN_tree t r rn c _ I). destruct I.
+    simpl in q_single0. subst c. unfold entries. simpl. now rewrite q_rn0.
+  Qed.
+
+  Lemma single_tree : forall t r rn c T, PInvN t r rn c T -> length (p_contents t) = 1%nat -> T = PLeaf c.
+  Proof.
+    intros t r rn c T I L.
+    assert (CHK : p_inv_check t = true) by (apply PInv_check; unfold PInv; destruct I; rewrite q_root0; eauto 6 using Build_PInvN).
+    pose proof (p_size_correct t CHK) as SZ. unfold s_size in SZ. rewrite L in SZ.
+    pose proof I as I0. destruct I. rewrite q_size0 in SZ. destruct T as [i|i l rr].
+    - inversion q_rep0; subst. reflexivity.
+    - pose proof (leaves_two i l rr). lia.
+  Qed.
+
   (** ** histories with DeleteAll, deletes of absent keys, and DeleteMin/DeleteMax on the empty trie *)
   Lemma PInv_empty_root : forall t, PInv t -> p_contents t = [] -> proot t = None.
   Proof.
@@ -680,9 +720,9 @@ Section Put.
   Definition ok_event (m : smap V) (e : ev V) : Prop :=
     match e with
     | EPut k _ => kvalid k
-    | EDelete k => sget k m = None
+    | EDelete k => sget k m = None \/ length m = 1%nat
     | EDeleteAll => True
-    | EDeleteMin | EDeleteMax => m = []
+    | EDeleteMin | EDeleteMax => (length m <= 1)%nat
     | _ => checked_query_m e
     end.
 
@@ -692,6 +732,21 @@ Section Put.
     | e :: es' => ok_event m e /\ ok_hist (fst (s_step m e)) es'
     end.
 
+  Lemma PInv_after_single : forall t', proot t' = None -> psize t' = 0 -> PInv t' /\ p_contents t' = [].
+  Proof.
+    intros t' R Z. split; [unfold PInv; now rewrite R|]. unfold p_contents, p_tree. now rewrite R.
+  Qed.
+
+  (** the state behind a one-entry map *)
+  Lemma single_state : forall t, PInv t -> length (p_contents t) = 1%nat ->
+    exists r rn c, PInvN t r rn c (PLeaf c) /\ p_contents t = [kv_of rn].
+  Proof.
+    intros t I L. pose proof I as I0. unfold PInv in I. destruct (proot t) as [r|] eqn:R.
+    - destruct I as [rn [c [T I]]]. pose proof (single_tree t r rn c T I L). subst T.
+      exists r, rn, c. split; auto. now apply (single_contents t r rn c).
+    - unfold p_contents, p_tree in L. rewrite R in L. discriminate.
+  Qed.
+
   Lemma p_run_partial : forall es t m, PInv t -> p_contents t = m -> ok_hist m es -> p_run t es = s_run m es.
   Proof.
     induction es as [|e es IH]; intros t m I C F; [reflexivity|]. destruct F as [E F]. cbn [p_run s_run].
@@ -699,13 +754,34 @@ Section Put.
       try (rewrite (p_step_checked_m t _ (PInv_check t I) E); subst m; cbn [s_step snd]; f_equal; now apply IH).
     - destruct (p_put_preserves t k v I E) as [t' [P [I' C']]].
       cbn [p_step s_step]. rewrite P. cbn [rbind lift_mut]. f_equal. apply IH; auto. now rewrite C', C.
-    - cbn [p_step s_step]. subst m. rewrite (p_delete_absent t k (PInv_check t I) E). cbn [lift_mut]. rewrite E.
-      assert (SD : sdel k (p_contents t) = p_contents t) by (apply sdel_notin; now apply sget_none_inv).
-      rewrite SD in *. f_equal. now apply IH.
-    - subst m. rewrite E in *. cbn [p_step s_step]. rewrite (p_deletemin_empty t (PInv_empty_root t I E)).
-      cbn [lift_mut hd_error tl]. f_equal. now apply IH.
-    - subst m. rewrite E in *. cbn [p_step s_step]. rewrite (p_deletemax_empty t (PInv_empty_root t I E)).
-      cbn [lift_mut]. f_equal. now apply IH.
+    - (* Delete *)
+      cbn [p_step s_step]. subst m. destruct (sget k (p_contents t)) as [v0|] eqn:G.
+      + destruct E as [E | E]; [discriminate|].
+        destruct (single_state t I E) as [r [rn [c [IN CT]]]]. rewrite CT in *.
+        simpl in G. destruct (keqb k (n_key rn)) eqn:EK; [|discriminate]. injection G as <-.
+        destruct (single_remove t r rn c (ByKey k) (fun nn => keqb (n_key nn) k) IN) as [t' [D [R0 Z0]]];
+          [now rewrite keqb_sym|].
+        unfold p_delete. rewrite (q_root _ _ _ _ _ IN), D. cbn [rbind lift_mut fst snd]. f_equal.
+        destruct (PInv_after_single t' R0 Z0) as [I' C'].
+        assert (SD : sdel k [kv_of rn] = []) by (unfold kv_of; simpl; now rewrite EK).
+        rewrite SD in *. now apply IH.
+      + rewrite (p_delete_absent t k (PInv_check t I) G). cbn [lift_mut].
+        assert (SD : sdel k (p_contents t) = p_contents t) by (apply sdel_notin; now apply sget_none_inv).
+        rewrite SD in *. f_equal. now apply IH.
+    - (* DeleteMin *)
+      subst m. cbn [p_step s_step]. destruct (p_contents t) as [|e0 [|e1 m']] eqn:CT; simpl in E; try lia.
+      + rewrite (p_deletemin_empty t (PInv_empty_root t I CT)). cbn [lift_mut hd_error tl]. f_equal. apply IH; auto.
+      + destruct (single_state t I) as [r [rn [c [IN CT2]]]]; [now rewrite CT|]. rewrite CT in CT2. injection CT2 as ->.
+        destruct (single_remove t r rn c GoLeft (fun _ => true) IN eq_refl) as [t' [D [R0 Z0]]].
+        unfold p_deletemin. rewrite (q_root _ _ _ _ _ IN), D. cbn [lift_mut hd_error tl]. f_equal.
+        destruct (PInv_after_single t' R0 Z0) as [I' C']. apply IH; auto.
+    - (* DeleteMax *)
+      subst m. cbn [p_step s_step]. destruct (p_contents t) as [|e0 [|e1 m']] eqn:CT; simpl in E; try lia.
+      + rewrite (p_deletemax_empty t (PInv_empty_root t I CT)). cbn [lift_mut]. f_equal. apply IH; auto.
+      + destruct (single_state t I) as [r [rn [c [IN CT2]]]]; [now rewrite CT|]. rewrite CT in CT2. injection CT2 as ->.
+        destruct (single_remove t r rn c GoRight (fun _ => true) IN eq_refl) as [t' [D [R0 Z0]]].
+        unfold p_deletemax. rewrite (q_root _ _ _ _ _ IN), D. cbn [lift_mut]. f_equal.
+        destruct (PInv_after_single t' R0 Z0) as [I' C']. apply IH; auto.
     - cbn [p_step s_step]. f_equal. apply IH; auto. unfold PInv. reflexivity.
   Qed.
 
